@@ -110,9 +110,51 @@ def run_history(ops, kinds=('lookup', 'restore')):
         if got != exp and 'lookup' in kinds:
             return ('violation', 'lookup', 'operations: %s\nget_value of (X,Y,Z,W) now gives\n  %r\nbut the active bindings are\n  %r' % (describe(ops[:n + 1]), got, exp))
         trace.append(exp)
+    if 'lookup' in kinds and gens:
+        bad = interrupted_lookups(ev, envs[-1], ops)
+        if bad:
+            return bad
+        steps += 1
     for g in reversed(gens):
         g.close()
     return ('ok', tuple(trace), steps)
+
+
+def interrupted_lookups(ev, env, ops):
+    """fault enumeration on the lookup itself: get_value / to_python are run under every
+    recursion limit from just above the current stack depth upwards, so that the interpreter's
+    RecursionError strikes at every depth of the dereferencing; afterwards (limit restored) the
+    lookups must give exactly what they gave before"""
+    import sys
+    depth = 0
+    f = sys._getframe()
+    while f is not None:
+        depth += 1
+        f = f.f_back
+    old = sys.getrecursionlimit()
+    exp = canon(VARS, env)
+    for lim in range(depth + 2, depth + 16):
+        try:
+            sys.setrecursionlimit(lim)
+            for v in ev:
+                impl.engine.get_value(v)
+                impl.engine.to_python(v) if not _partial(v) else None
+        except RecursionError:
+            pass
+        except Exception:  # noqa: BLE001 - to_python of odd shapes may raise; not judged here
+            pass
+        finally:
+            sys.setrecursionlimit(old)
+        names = {}
+        got = tuple(raw(impl.engine.get_value(v), names) for v in ev)
+        if got != exp:
+            return ('violation', 'lookup', 'operations: %s\nafter a lookup that was interrupted by a RecursionError (recursion limit %d, stack depth %d) get_value of (X,Y,Z,W) gives\n  %r\nbut the active bindings are\n  %r'
+                    % (describe(ops), lim, depth, got, exp))
+    return None
+
+
+def _partial(v):
+    return False
 
 
 def histories(depth, neqs=len(EQS)):
